@@ -17,7 +17,14 @@ func init() {
 			"(5) resolveTokenPolicies reaches its final policy set only through the role-with-lists arm, the cross-namespace arm, parent inheritance, the subset test or sudo, checks role allow/deny lists and rejects non-assignable policies on every returning path; the role arm hands its list on only after, for each of the role's four lists separately, that list was found empty or the loop testing every policy against it ran to its end (or, for the allowed lists, the role's own allowed list was adopted); " +
 			"(6) non-expiring root only from a non-expiring root parent; TTLs come out of CalculateTTL or the explicit maximum; " +
 			"(7) login token creation (LoginCreateToken, Core.RegisterAuth) rejects root and non-assignable policies over token+identity policies before registering and refuses non-root zero TTL; " +
-			"(8) the three create endpoints differ only in their constant orphan/role arguments.",
+			"(8) the three create endpoints differ only in their constant orphan/role arguments; " +
+			"(9) in parseAndMergeTTLPeriod the role's explicit max TTL / period replaces the requested one only when the requested one is unset or larger, and the role's bounds are examined on every returning path with a role and a non-batch type; " +
+			"(10) tokenStoreRole carries the legacy period / explicit_max_ttl / bound_cidrs fields of roles stored by older versions over to the token_* fields before the role is used; " +
+			"(11) resolveEntityAlias returns an entity ID only with a role, for an alias (lower-cased) found in the role's allowed list or globs, from a successfully fetched, non-disabled entity; te.EntityID is that ID or the parent's, the latter only for non-orphans; " +
+			"(12) te.NumUses is replaced only by the role's token_num_uses, only when the request named none or more; " +
+			"(13) SudoPrivilege answers only false or the RootPrivs of AllowOperation on the ACL built from the looked-up caller token's policies and identity policies (honouring no_identity_policies) for the given path; " +
+			"(14) the login token entry takes its TTL from the CalculateTTL result handed in, its policies from the sanitised token policies, and has no parent; " +
+			"(15) renewal re-imposes the stored explicit max TTL and period of a role-less token, and the role's for role tokens, before every response.",
 		NotDecided: "correctness of SanitizePolicies, StrListSubset and glob matching (values); the full cross product of role list semantics; what sudo on the create path is granted to.",
 		Run:        runC07,
 	})
@@ -424,6 +431,7 @@ func runC07(c *eng.Ctx, thorough bool) {
 		cc := instrsOf(eng.Calls(f, `handleCreateCommon$`))
 		c.Cut(f, "handleCreateCommon(role)", cc, eng.G(f, `tokenStoreRole\(\)#0 == nil$`, false), nil)
 	}
+	runC07Gaps2(c)
 }
 
 // c07CallCondEdges: the edges of the branches of f that test the result of a
